@@ -74,51 +74,171 @@ def parseTriples (s : String) : Option (List (Nat × Nat × Int)) :=
       | _, _, _ => none
     | _ => none
 
+/-- fidelity figure (decides nothing): beyond obs_P, is the annotated reference exactly what the
+    model says — internal names blanked, everything else (names of tips, comments, lengths,
+    p-values, ids, parent positions) untouched, supports where the implementation put them -/
+def fidelity (name : String) (r : T) (after : Option T) : List String :=
+  match after with
+  | none => []
+  | some a =>
+    [name ++ (if a.nodeNames == (blankNames r).nodeNames then "-names-as-model" else "-names-DIFFER"),
+     name ++ (if annotated r (supsOf a) == a then "-tree-as-model" else "-tree-DIFFERS")]
+
+/-- some node that both functions blank carries a name -/
+def innerNamed (r : T) : Bool := r.nodeNames != (blankNames r).nodeNames
+
+def approxRelOrEq (a b : Rat) : Bool := a == b || approxRel a b
+
+/-- one run of FBP and TBE on (reference, collection) with `th` threads -/
+def supCase (mode th rd bds fo fa to ta : String) : Verdict :=
+  match T.undump rd, parseDumps bds with
+  | some r, some bs =>
+    let fa? := if fa == "" then none else T.undump fa
+    let ta? := if ta == "" then none else T.undump ta
+    if (fa != "" && fa?.isNone) || (ta != "" && ta?.isNone) then bad "C10.sup after dumps" else
+    let uniq := reinitOk r && bs.all reinitOk
+    let wf := wfTree r && bs.all wfTree
+    let mismatch := bs.any fun b => !sameTaxa r b
+    let ids := parserIds r
+    let hyp := inputsOK r bs
+    let allSups := (fa?.map supsOf).getD [] ++ (ta?.map supsOf).getD []
+    let tags := [mode, "threads=" ++ th] ++ tagIf (th != "1" && mismatch) "rejection-with-threads" ++ treeTags r bs ++ tagIf (allSups.any between) "nontrivial" ++
+      tagIf uniq "uniq" ++ tagIf wf "wf" ++ tagIf mismatch "mismatch" ++ tagIf hyp "hyp-inputsOK" ++
+      tagIf (hypOK r bs) "hyp-hypOK" ++ tagIf (hypOK r bs && idsInRange r) "hyp-hypOK+idsInRange" ++
+      tagIf (treeOK r && bs.all treeOK && idsInRange r && mismatch) "hyp-different_taxa" ++
+      tagIf (!ids) "ids-not-parser" ++ tagIf (!idsInRange r) "ids-out-of-range" ++
+      tagIf (uniq && !wf) "single-child-node" ++ tagIf (outClass to == "panic") "panic-outcome" ++ tagIf bs.isEmpty "empty" ++
+      tagIf (ntips r < 4) "lt4tips" ++ fidelity "fbp" r fa? ++ fidelity "tbe" r ta? ++
+      tagIf (r.splits.any fun s => !s.tip && s.e.sup != NIL) "ref-has-supports" ++
+      tagIf (innerNamed r) "ref-inner-names" ++
+      tagIf (r.kids.length == 1 || bs.any (·.kids.length == 1)) "root-is-a-tip" ++
+      tagIf (r.tipNames.any fun x => x.toList.any fun ch => !(ch.isAlphanum)) "awkward-tip-names" ++
+      tagIf (ntips r > 16) "more-than-16-tips"
+    -- oracle
+    let orc : Option String :=
+      if !uniq || !wf || bs.isEmpty || !ids then none
+      else if mismatch then
+        (if outClass fo != "err" then some "FBP: bootstrap tree on other taxa not rejected"
+         else if outClass to != "err" then some "TBE: bootstrap tree on other taxa not rejected"
+         else none)
+      else
+        match checkOne "FBP" fbpOK r bs fo fa?, checkOne "TBE" tbeOK r bs to ta? with
+        | some m, _ => some m
+        | _, some m => some m
+        | none, none =>
+          match fa?, ta? with
+          | some a, some b =>
+            if fbpLeTbeOK r (supsOf a) (supsOf b) then none else some "FBP support above TBE support"
+          | _, _ => none
+    match orc with
+    | some m => ⟨.oracle, tags, m⟩
+    | none =>
+      match tieOne "FBP" (fbp r bs) fo fa? approxRelOrEq, tieOne "TBE" (tbe r bs) to ta? approxAbs with
+      | some m, _ => ⟨.tie, tags, m⟩
+      | _, some m => ⟨.tie, tags, m⟩
+      | none, none => ⟨.pass, tags, ""⟩
+  | _, _ => bad "C10.sup dumps"
+
+
+def parseItems (s : String) : List (Item String) :=
+  (splitTerm "|" s).map fun x => if x == "B" then .blank else if x == "J" then .junk else .tree x
+
+def isTreeItem : Item String → Bool
+  | .tree _ => true
+  | _ => false
+
+/-- the files given to `gotree compute support`: the model of the readers picks the trees,
+    then the case is an ordinary one -/
+def cliCase (th refItems bootItems fo fa to ta : String) : Verdict :=
+  let ri := parseItems refItems
+  let bi := parseItems bootItems
+  let tags0 := ["cli-files"] ++ tagIf ((ri.filter isTreeItem).length ≥ 2) "ref-file-more-trees" ++
+    tagIf (ri.head?.map isTreeItem == some false) "ref-file-leading-blank" ++
+    tagIf (bi.any fun x => match x with | .blank => true | _ => false) "boot-file-blank-lines" ++
+    tagIf (bi.any fun x => match x with | .junk => true | _ => false) "boot-file-unterminated" ++
+    tagIf (!bi.any isTreeItem) "boot-file-no-tree"
+  let expectErr (why : String) : Verdict :=
+    if outClass fo == "err" && outClass to == "err" then ⟨.pass, tags0 ++ ["cli-reader-error"], ""⟩
+    else ⟨.tie, tags0, "model of the readers: " ++ why ++ "; outcomes " ++ outClass fo ++ "/" ++ outClass to⟩
+  match cliReference ri with
+  | none => expectErr "no reference tree"
+  | some rd =>
+    let st := cliStream bi
+    if st.any Option.isNone then expectErr "erroneous item in the bootstrap stream"
+    else
+      let v := supCase "cli" th rd (joinTerm "|" (st.filterMap id)) fo fa to ta
+      { v with tags := tags0 ++ v.tags }
+
+/-- printed with `%f` / `%.6f`: six decimals -/
+def approxLog (a b : Rat) : Bool := absR (a - b) * 1000000 ≤ 1
+
+def parseRaw (s : String) : Option (List (Nat × Rat × Int)) :=
+  (splitTerm "," s).mapM fun it =>
+    match it.splitOn ":" with
+    | [a, b, c] =>
+      match a.toNat?, parseRat? b, c.toInt? with
+      | some x, some y, some z => some (x, y, z)
+      | _, _, _ => none
+    | _ => none
+
+def parseTaxa (s : String) : Option (List (String × Rat)) :=
+  (splitTerm "," s).mapM fun it =>
+    match it.splitOn ":" with
+    | [a, b] =>
+      match unescape a, parseRat? b with
+      | some x, some y => some (x, y)
+      | _, _ => none
+    | _ => none
+
+def parseBranches (s : String) : Option (List (Int × Int × Rat × List Rat)) :=
+  (splitTerm "," s).mapM fun it =>
+    match it.splitOn ":" with
+    | [a, b, c, d] =>
+      match a.toInt?, b.toInt?, parseRat? c, (if d == "" then some [] else (d.splitOn ";").mapM parseRat?) with
+      | some x, some y, some z, some l => some (x, y, z, l)
+      | _, _, _, _ => none
+    | _ => none
+
+/-- TBE's other outputs (raw tree, moved taxa, per branch) against the model: correspondence;
+    the average transfer distance of the raw tree is also checked against the definition -/
+def logCase (rd bds cs out raws taxas brs : String) : Verdict :=
+  match T.undump rd, parseDumps bds, parseRat? cs, parseRaw raws, parseTaxa taxas, parseBranches brs with
+  | some r, some bs, some cutoff, some raw, some taxa, some branches =>
+    let ok := hypOK r bs && parserIds r
+    let tags := ["log"] ++ tagIf ok "hyp-log" ++ tagIf (taxa.any fun x => x.2 != 0) "nontrivial" ++
+      tagIf (taxa.any fun x => x.2 != 0) "moved-taxa-nonzero" ++
+      tagIf (branches.any fun x => decide (x.2.2.1 > 1)) "several-closest-branches"
+    if !ok then ⟨.pass, "skip" :: tags, ""⟩
+    else if out != "ok" then ⟨.oracle, tags, "TBE with the log options: outcome " ++ outClass out⟩
+    else
+      -- oracle: the raw tree carries the mean least transfer distance of the definition
+      let n := ntips r
+      let rawDef : List (Nat × Rat × Int) := (List.zip (List.range r.splits.length) r.splits).filterMap fun x =>
+        if 2 ≤ depth r.tipNames x.2.below then
+          let L := lightSide r.tipNames x.2.below
+          some (x.1, (((bs.map (minTransferPure L n)).sum : Nat) : Rat) / ((bs.length : Nat) : Rat),
+                ((depth r.tipNames x.2.below : Nat) : Int))
+        else none
+      let eqRaw (a b : List (Nat × Rat × Int)) : Bool :=
+        zipAll (fun x y => x.1 == y.1 && approxLog x.2.1 y.2.1 && x.2.2 == y.2.2) a b
+      if !eqRaw raw rawDef then ⟨.oracle, tags, "raw tree: average transfer distances differ from the definition"⟩
+      else
+        let m := tbeLog r bs cutoff
+        if !eqRaw raw m.raw then ⟨.tie, tags, "model raw tree"⟩
+        else if !zipAll (fun x y => x.1 == y.1 && approxLog x.2 y.2) taxa m.taxa then
+          ⟨.tie, tags, "model moved taxa " ++ showRatList (m.taxa.map (·.2))⟩
+        else if !zipAll (fun (x y : Int × Int × Rat × List Rat) => x.1 == y.1 && x.2.1 == y.2.1 && approxLog x.2.2.1 y.2.2.1 &&
+              zipAll approxLog x.2.2.2 y.2.2.2) branches m.branches then
+          ⟨.tie, tags, "model per-branch table " ++ showRatMatrix (m.branches.map fun x => x.2.2.1 :: x.2.2.2)⟩
+        else ⟨.pass, tags, ""⟩
+  | _, _, _, _, _, _ => bad "C10.log fields"
+
 def handle (op : String) (f : List String) : Verdict :=
   match op, f with
-  | "sup", [mode, rd, bds, fo, fa, to, ta] =>
-    match T.undump rd, parseDumps bds with
-    | some r, some bs =>
-      let fa? := if fa == "" then none else T.undump fa
-      let ta? := if ta == "" then none else T.undump ta
-      if (fa != "" && fa?.isNone) || (ta != "" && ta?.isNone) then bad "C10.sup after dumps" else
-      let uniq := reinitOk r && bs.all reinitOk
-      let wf := wfTree r && bs.all wfTree
-      let mismatch := bs.any fun b => !sameTaxa r b
-      let ids := parserIds r
-      let hyp := inputsOK r bs
-      let allSups := (fa?.map supsOf).getD [] ++ (ta?.map supsOf).getD []
-      let tags := [mode] ++ treeTags r bs ++ tagIf (allSups.any between) "nontrivial" ++
-        tagIf uniq "uniq" ++ tagIf wf "wf" ++ tagIf mismatch "mismatch" ++ tagIf hyp "hyp-inputsOK" ++
-        tagIf (hypOK r bs) "hyp-hypOK" ++ tagIf (hypOK r bs && idsInRange r) "hyp-hypOK+idsInRange" ++
-        tagIf (treeOK r && bs.all treeOK && idsInRange r && mismatch) "hyp-different_taxa" ++
-        tagIf (!ids) "ids-not-parser" ++ tagIf (!idsInRange r) "ids-out-of-range" ++
-        tagIf (uniq && !wf) "single-child-node" ++ tagIf (outClass to == "panic") "panic-outcome" ++ tagIf bs.isEmpty "empty" ++
-        tagIf (ntips r < 4) "lt4tips"
-      -- oracle
-      let orc : Option String :=
-        if !uniq || !wf || bs.isEmpty || !ids then none
-        else if mismatch then
-          (if outClass fo != "err" then some "FBP: bootstrap tree on other taxa not rejected"
-           else if outClass to != "err" then some "TBE: bootstrap tree on other taxa not rejected"
-           else none)
-        else
-          match checkOne "FBP" fbpOK r bs fo fa?, checkOne "TBE" tbeOK r bs to ta? with
-          | some m, _ => some m
-          | _, some m => some m
-          | none, none =>
-            match fa?, ta? with
-            | some a, some b =>
-              if fbpLeTbeOK r (supsOf a) (supsOf b) then none else some "FBP support above TBE support"
-            | _, _ => none
-      match orc with
-      | some m => ⟨.oracle, tags, m⟩
-      | none =>
-        match tieOne "FBP" (fbp r bs) fo fa? approxRelOrEq, tieOne "TBE" (tbe r bs) to ta? approxAbs with
-        | some m, _ => ⟨.tie, tags, m⟩
-        | _, some m => ⟨.tie, tags, m⟩
-        | none, none => ⟨.pass, tags, ""⟩
-    | _, _ => bad "C10.sup dumps"
+  | "log", [rd, bds, cs, out, raws, taxas, brs] => logCase rd bds cs out raws taxas brs
+  | "cli", [th, refItems, bootItems, fo, fa, to, ta] => cliCase th refItems bootItems fo fa to ta
+  | "sup", [mode, rd, bds, fo, fa, to, ta] => supCase mode "1" rd bds fo fa to ta
+  | "supt", [mode, th, rd, bds, fo, fa, to, ta] => supCase mode th rd bds fo fa to ta
   | "mtd", [rd, bd, out, res] =>
     match T.undump rd, T.undump bd, parseTriples res with
     | some r, some b, some items =>
@@ -177,7 +297,5 @@ def handle (op : String) (f : List String) : Verdict :=
       else ⟨.pass, tags, ""⟩
     | _, _, _, _, _, _, _, _ => bad "C10.inv dumps"
   | _, _ => bad ("C10: unknown op " ++ op)
-where
-  approxRelOrEq (a b : Rat) : Bool := a == b || approxRel a b
 
 end Gotree.Driver.C10
